@@ -222,6 +222,39 @@ FALSE = lit(False)
 UNIT = mk("unit")
 
 
+_BOOLEAN_OPS = ("eq", "ne", "not", "and", "or", "sign", "isqrt_sq", "bool")
+
+
+def choice_true(c):
+    """the predicate `bool::from(c)` of a subtle::Choice c; Choice::from(b as u8) for a boolean b is b, !c is the negation"""
+    x = c
+    while isinstance(x, T) and x.op == "cast":
+        x = x.args[1]
+    if isinstance(x, T) and x.op in _BOOLEAN_OPS:
+        return x
+    if isinstance(x, T) and x.op == "choice_not":
+        inner = choice_true(x.args[0])
+        if inner.op != "choice_true":
+            return not_(inner)
+    return mk("choice_true", c)
+
+
+def choice_u8(c):
+    """Choice::unwrap_u8: the byte 1 when the choice holds and 0 otherwise"""
+    return ite(choice_true(c), lit(1), lit(0))
+
+
+def mask_of(x):
+    """0.wrapping_sub(x) / x.wrapping_neg() for a 0/1 word x = [c]: the all-ones mask of the word's type under c, else None"""
+    while isinstance(x, T) and x.op == "cast":
+        x = x.args[1]
+    if isinstance(x, T) and x.op == "ite" and x.args[1] is lit(1) and x.args[2] is lit(0):
+        return mk("mask", x.args[0])
+    if isinstance(x, T) and x.op == "ite" and x.args[1] is lit(0) and x.args[2] is lit(1):
+        return mk("mask", not_(x.args[0]))
+    return None
+
+
 def is_lit(t):
     return isinstance(t, T) and t.op in ("lit", "bool")
 
@@ -379,6 +412,12 @@ def eq(a, b):
     for u, w in ((a, b), (b, a)):
         if w.op == "lit" and w.args[0] == 0 and w.args[0] is not False and u.op == "shl" and u.args[0].op == "shr" and u.args[1] is u.args[0].args[1]:
             return eq(u.args[0], lit(0))
+    # an OR of words is zero exactly when every word is; an XOR is zero exactly when its operands agree
+    for u, w in ((a, b), (b, a)):
+        if w.op == "lit" and w.args[0] == 0 and w.args[0] is not False and isinstance(u, T) and u.op == "bor" and len(u.args) == 2:
+            return and_(eq(u.args[0], w), eq(u.args[1], w))
+        if w.op == "lit" and w.args[0] == 0 and w.args[0] is not False and isinstance(u, T) and u.op == "bxor" and len(u.args) == 2:
+            return eq(u.args[0], u.args[1])
     # a one-bit value compared with 1 is the negation of its comparison with 0
     for u, w in ((a, b), (b, a)):
         if w.op == "lit" and w.args[0] == 1 and w.args[0] is not True and u.op == "band" and any(t.op == "lit" and t.args[0] == 1 and t.args[0] is not True for t in u.args if isinstance(t, T)):
@@ -550,11 +589,30 @@ def intop(op, a, b):
         return a
     if op in ("iadd", "bor", "bxor") and _is_int(a, 0):
         return b
+    if op == "band" and (_is_int(a, 0) or _is_int(b, 0)):
+        return lit(0)
     if op == "imul":
         if is_lit(b) and b.args[0] == 1 and not isinstance(b.args[0], bool):
             return a
         if is_lit(a) and a.args[0] == 1 and not isinstance(a.args[0], bool):
             return b
+    # selection by mask arithmetic: mask(c) is the all-ones word of its type when c holds and 0 otherwise
+    if op == "band":
+        for m_, y in ((a, b), (b, a)):
+            if isinstance(m_, T) and m_.op == "mask":
+                return ite(m_.args[0], y, lit(0))
+    if op in ("bxor", "bor", "band") and isinstance(a, T) and isinstance(b, T):
+        # x ^ (x ^ y) == y
+        if op == "bxor":
+            for u, w in ((a, b), (b, a)):
+                if w.op == "bxor" and (w.args[0] is u or w.args[1] is u):
+                    return w.args[1] if w.args[0] is u else w.args[0]
+        if a.op == "ite" and b.op == "ite" and a.args[0] is b.args[0]:
+            return ite(a.args[0], intop(op, a.args[1], b.args[1]), intop(op, a.args[2], b.args[2]))
+        for u, w, left in ((a, b, False), (b, a, True)):
+            if w.op == "ite" and any(_is_int(br, 0) for br in w.args[1:]) and u.op != "ite":
+                f_ = (lambda x: intop(op, x, u)) if left else (lambda x: intop(op, u, x))
+                return ite(w.args[0], f_(w.args[1]), f_(w.args[2]))
     if is_lit(a) and is_lit(b) and isinstance(a.args[0], int) and isinstance(b.args[0], int) \
             and not isinstance(a.args[0], bool) and not isinstance(b.args[0], bool):
         r = _INT_BIN[op](a.args[0], b.args[0])
